@@ -18,8 +18,8 @@ ASSUMPTIONS = [
     'lifecycle hooks do not raise; no kill requests (C04)',
 ]
 BUDGET = {
-    'quick': {'enum': ['k1', 'k2', 'self2', 'listener', 'wc1', 'wc2', 'afterkill', 'reload', 'withdraw', 'hookstatus'], 'hyp': 4000, 'shards': 8},
-    'thorough': {'enum': ['k1', 'k2', 'k3', 'k4w', 'self3', 'listener', 'wc1', 'wc2', 'wc3', 'afterkill', 'reload', 'withdraw', 'hookstatus'], 'hyp': 120000, 'shards': 16},
+    'quick': {'enum': ['k1', 'k2', 'self2', 'listener', 'wc1', 'wc2', 'afterkill', 'reload', 'withdraw', 'hookstatus', 'repause'], 'hyp': 4000, 'shards': 8},
+    'thorough': {'enum': ['k1', 'k2', 'k3', 'k4w', 'self3', 'listener', 'wc1', 'wc2', 'wc3', 'afterkill', 'reload', 'withdraw', 'hookstatus', 'repause'], 'hyp': 120000, 'shards': 16},
 }
 ALPHABET = [['pause', 'pm'], ['pause', None], ['play'], ['resume', 1]]
 ALPHABET_SMALL = [['pause', 'pm'], ['play'], ['resume', 1]]
@@ -67,6 +67,30 @@ def enumerate_cases(tier, scope):
                     if 'withdraw' not in kinds or kinds.index('withdraw') == 0 or 'pause' not in kinds[: kinds.index('withdraw')]:
                         continue
                     yield {'program': cat[name], 'schedule': [['tick', 1]] + sched, 'tag': f'withdraw:{name}'}
+        # ... and the same for a kill request the caller gave up on: where that left the process alive, pause/play work
+        # on it as on one that was never asked to stop
+        alpha = [['pause', 'pm'], ['killw', 'kw'], ['play'], ['resume', 1]]
+        for name in ('async2', 'wait1', 'gated', 'chain', 'waitwait'):
+            for kk in (2, 3):
+                for sched in gen.schedules(alpha, kk, 2):
+                    kinds = [e[0] for e in sched]
+                    if 'killw' not in kinds or 'pause' not in kinds[kinds.index('killw') :]:
+                        continue
+                    for pre in (0, 1, 2):
+                        yield {'program': cat[name], 'schedule': ([['tick', pre]] if pre else []) + sched, 'tag': f'killwithdrawn:{name}'}
+    elif scope == 'repause':
+        # a listener answers the played notification with a new pause (a supervisor that is not done yet): the second
+        # play restores the status of the program all the same
+        progs = dict(cat)
+        progs['status_wait'] = {'steps': [gen.S([['status', 'work']], ['wait', 1, None, None]), gen.S([['yield']], ['value', 3], True)]}
+        progs['status_chain'] = {'steps': [gen.S([['yield'], ['status', 'w2'], ['yield']], ['continue', 1, [], {}], True), gen.S([['yield'], ['yield']], ['value', 1], True)]}
+        cat = progs
+        for name in ('status_wait', 'status_chain', 'async2', 'waitwait', 'missing_out'):
+            for tick in (0, 1, 2, 3):
+                for gap in (0, 2):
+                    sched = ([['tick', tick]] if tick else []) + [['pause', 'pm'], ['tick', 3], ['play']] + ([['tick', gap]] if gap else []) + [['play']]
+                    for occ in (1, 2):
+                        yield {'program': cat[name], 'schedule': sched + ([['pause', 'again'], ['tick', 2], ['play'], ['play']] if occ == 2 else []), 'listener': [{'on': 'on_process_played', 'occ': occ, 'do': ['pause', 'lp']}], 'tag': f'repause:{name}'}
     elif scope == 'afterkill':
         # pause()/play() never raise, also around a termination (no twin comparison for these)
         for name in ('async2', 'wait1', 'chain', 'gated'):
@@ -100,6 +124,9 @@ def enumerate_cases(tier, scope):
                     for do in (['pause', 'lp'], ['play', None]):
                         for sched in gen.schedules(ALPHABET_SMALL, 1, 4):
                             yield {'program': cat[name], 'schedule': sched, 'listener': [{'on': on, 'occ': occ, 'do': do}]}
+                        if name in ('wait1', 'waitwait') and occ == 1:
+                            for sched in gen.schedules(ALPHABET_SMALL, 2, 1):
+                                yield {'program': cat[name], 'schedule': [['tick', 1]] + sched, 'listener': [{'on': on, 'occ': occ, 'do': do}]}
     else:
         raise ValueError(scope)
 
@@ -115,7 +142,7 @@ def _cases(draw, tier):
             kwargs=False,
         )
     )
-    sched = draw(gen.control_schedules(['pause', 'pause', 'play', 'play', 'resume', 'open', 'reload', 'withdraw_pause'], max_events=5, max_gap=4))
+    sched = draw(gen.control_schedules(['pause', 'pause', 'play', 'play', 'resume', 'open', 'reload', 'withdraw_pause', 'killw'], max_events=5, max_gap=4))
     plans = draw(gen.listener_plans(['pause', 'play'])) if draw(st.integers(0, 2)) == 0 else []
     return {'program': prog, 'schedule': sched, 'listener': plans}
 
@@ -140,6 +167,9 @@ def execute(case):
             if r['what'] == 'play' and not r['raised'] and (r['ret'] != 'True' or r['paused_after']):
                 v('play-left-paused', f"play() returned {r['ret']}, paused={r['paused_after']} in state {r['state_before']}")
         return {'violations': viol, 'nontrivial': True, 'classes': ['around-termination', 'final:' + a['views']['state']], 'history': a['history']}
+    if any(ev[0] == 'killw' for ev in case.get('schedule', ())) and (a['views']['state'] == 'killed' or any(r['what'] == 'kill' and r['ret'] == 'True' for r in calls)):
+        # the kill was carried out before it could be withdrawn: not a pause/play history any more (C04)
+        return {'violations': viol, 'nontrivial': False, 'classes': ['kill-effective'], 'history': a['history']}
     b = common_pp.run_twin(case, a['delivered'])
     trace = a['trace']
 
@@ -163,7 +193,9 @@ def execute(case):
     # a pause that was not withdrawn takes effect at the next step boundary: no new step is entered after it
     sched_calls = calls[: a['n_calls_schedule']]
     # (a pause whose returned future the caller cancelled is withdrawn: it makes no claim)
-    pp = sorted((r for r in sched_calls if r['what'] in ('pause', 'play') and not r.get('withdrawn')), key=lambda r: r['begin'])
+    # (neither does one that a later kill request superseded, whatever became of that kill)
+    last_kill = max([r['begin'] for r in sched_calls if r['what'] == 'kill'], default=-1)
+    pp = sorted((r for r in sched_calls if r['what'] in ('pause', 'play') and not r.get('withdrawn') and r['begin'] > last_kill), key=lambda r: r['begin'])
     if pp and pp[-1]['what'] == 'pause' and pp[-1]['live_before'] and not pp[-1]['raised']:
         last = pp[-1]
         pre = a['pre_settle']
